@@ -91,3 +91,7 @@ Definition valid_selection (l sel : list row) : Prop :=
 
 Definition row_of (D : Type) (h : ltree -> D) (tr : trace) : positive * positive * option D :=
   (tjob tr, tname tr, Some (h (ttree tr))).
+
+(** the set of (workflow name, shape) pairs represented in the result of find_unique_graphs *)
+Definition shapes_hit (bs : nat) (w : Z * Z) (traces : list trace) (nm : positive) (c : ctree) : Prop :=
+  exists j t, In (nm, j) (find_unique bs w (store_of traces)) /\ In (j, nm, t) traces /\ canon t = c.
